@@ -87,6 +87,9 @@ func sqlC09(args []string) error {
 	os.MkdirAll(dir, 0o755)
 	rng := rand.New(rand.NewSource(envSeed()))
 	pools := []int{64, 128, 512}
+	if ctx == "C07" {
+		pools = []int{1024, 2048, 4096} // a hash index keeps its bucket pages resident
+	}
 	if ctx == "C10" {
 		pools = []int{256, 512, 1024} // up to four tables with up to four indexed columns: each index keeps pages pinned
 	}
@@ -94,6 +97,11 @@ func sqlC09(args []string) error {
 		s, err := newFileRun(tw, ctx, dir, pools[rng.Intn(len(pools))])
 		if err != nil {
 			return err
+		}
+		if ctx == "C07" && sc%4 == 3 {
+			s.hashRestarts(rng, sc)
+			s.closeFiles()
+			continue
 		}
 		tables := []*tableDef{}
 		maxRanks := map[string]int{}
@@ -104,7 +112,16 @@ func sqlC09(args []string) error {
 				t.cols = append(t.cols, []string{"int", "float", "varchar"}[rng.Intn(3)])
 				t.names = append(t.names, fmt.Sprintf("c%d", len(t.names)))
 			}
-			if rng.Intn(2) == 0 {
+			if ctx == "C07" {
+				// every index kind the SQL layer can maintain, hash included (probed by key; no range scans on it)
+				t.kinds = randKinds(rng, len(t.cols))
+				for i := range t.kinds {
+					if rng.Intn(3) == 0 {
+						t.kinds[i] = "hash"
+					}
+				}
+				s.createAPI(t)
+			} else if rng.Intn(2) == 0 {
 				t.kinds = randKinds(rng, len(t.cols))
 				s.createAPI(t)
 			} else {
@@ -145,6 +162,15 @@ func sqlC09(args []string) error {
 		cycles := 1 + rng.Intn(3)
 		for cy := 0; cy < cycles && !s.dead; cy++ {
 			clean := ctx == "C09" || rng.Intn(2) == 0
+			if ctx == "C07" && cy == 0 && rng.Intn(2) == 0 {
+				// a rolled-back transaction right before the stop
+				s.begin()
+				for i := 0; i < 1+rng.Intn(3) && len(tables) > 0; i++ {
+					t := tables[rng.Intn(len(tables))]
+					s.randDML(rng, t, maxRanks[t.name])
+				}
+				s.endTxn(false)
+			}
 			s.restart(clean)
 			readAll()
 			if rng.Intn(2) == 0 {
@@ -265,4 +291,51 @@ func sqlC10Walk(args []string) error {
 		s.closeFiles()
 	}
 	return tw.Close()
+}
+
+// hashRestarts: a table with a hash index over MANY distinct keys (so that every block of the hash table holds
+// entries), a skip list index and an unindexed payload; committed inserts and deletes, a rolled-back transaction,
+// clean and crash-style restarts in every order; after each step every key (present, deleted, never present) is
+// looked up through the hash index and through the skip list index.
+func (s *sqlRun) hashRestarts(rng *rand.Rand, sc int) {
+	t := &tableDef{name: fmt.Sprintf("hw%d", sc), cols: []string{"wint", "wint", "varchar"}, names: []string{"k", "v", "p"},
+		kinds: []string{"hash", "skiplist", "none"}}
+	s.createAPI(t)
+	nextK := 0
+	add := func(n int) {
+		for i := 0; i < n; i++ {
+			s.insert(t, [][]int{{nextK, nextK % 7, rng.Intn(NRanks - 1)}}, nil)
+			nextK++
+		}
+	}
+	look := func() {
+		s.scan(t)
+		for k := 0; k < nextK+3; k++ {
+			s.idxPoint(t, 0, k)
+		}
+		for v := 0; v < 7; v++ {
+			s.idxPoint(t, 1, v)
+		}
+		s.idxRange(t, 1, -2, -2)
+	}
+	add(40 + rng.Intn(40))
+	look()
+	for cy := 0; cy < 3 && !s.dead; cy++ {
+		s.restart(rng.Intn(2) == 0)
+		look()
+		// committed deletes (by the skip-list column) and inserts
+		s.delete(t, atom(1, "=", rng.Intn(7)))
+		if rng.Intn(2) == 0 {
+			s.delete(t, atom(1, "=", rng.Intn(7)))
+		}
+		add(3 + rng.Intn(6))
+		if rng.Intn(2) == 0 { // rolled-back work
+			s.begin()
+			s.delete(t, atom(1, "=", rng.Intn(7)))
+			add(2)
+			s.endTxn(false)
+			nextK -= 0
+		}
+		look()
+	}
 }
